@@ -55,6 +55,25 @@ def determinism_selftest(adapter, seed, tier, n):
     }
 
 
+def regression_replays(adapter):
+    """Replay findings/*.json of this property; fixed findings must not reproduce."""
+    import glob
+
+    out = {"replayed": 0, "violations": []}
+    for path in sorted(glob.glob(os.path.join(core.VERIF, "findings", "*.json"))):
+        doc = core.read_replay(path)
+        if doc.get("property") != adapter.prop:
+            continue
+        out["replayed"] += 1
+        try:
+            adapter.replay(doc["case"])
+        except core.Violation as v:
+            listed = core.match_known(adapter.prop, v.signature)
+            if listed is None:
+                out["violations"].append((path, v))
+    return out
+
+
 def handle_violations(adapter, seed, violations, findings):
     """Classify, minimise, write and confirm replay files.  Returns (n_unlisted, lines)."""
     lines = []
@@ -160,6 +179,15 @@ def main(argv=None):
                 return core.EXIT_HARNESS
         extra_self = adapter.extra_selftests(tier)
 
+        # regression: every committed finding replay of this property (all repaired) must stay quiet
+        regress = regression_replays(adapter)
+        if regress["violations"]:
+            for path, v in regress["violations"]:
+                print("violation: %s" % v.message[:600])
+                print("VIOLATION property=%s replay=%s signature=%s (a repaired finding has returned)"
+                      % (adapter.prop, path, v.signature))
+            return core.EXIT_VIOLATION
+
         stats, violations, logd = core.farm(adapter.run, seed, n_runs, adapter.opts(tier))
         findings = core.load_known_findings()
         unlisted, lines = handle_violations(adapter, seed, violations, findings)
@@ -168,6 +196,7 @@ def main(argv=None):
         cov.update(core.stats_to_coverage(stats))
         cov["event_log_digest"] = logd
         cov["determinism_selftest"] = selftest
+        cov["regression_replays_of_fixed_findings"] = regress["replayed"]
         if extra_self:
             cov["selftests"] = extra_self
         cov["runs_per_hour"] = int(n_runs / max(wall, 1e-6) * 3600)
